@@ -2,7 +2,7 @@ SPECIFICATION Spec
 CONSTANTS Family = "findlist"
           MaxEdits = 3
           UnivKinds = {"complete", "leafonly", "noisy"}
-          WithGt = TRUE
+          WithGt = FALSE
 INVARIANT UnfoldIsDenote
 INVARIANT ErrorOnlyWhenDenoted
 INVARIANT AllTypedAndMatching
